@@ -278,3 +278,151 @@ def cross_tables(need_hash=True):
         if len(rk) >= 3:
             tables[name] = (rk, objs, p.hashable)
     return tables
+
+
+# ------------------------------------------------------------------ versions the real operators cannot rank
+#
+# The Layer-B streams address versions by rank in a pool built with the REAL operators, and a version on which the six
+# operators contradict each other cannot be ranked: the pool leaves it out (on the unchanged tree that happens only in
+# the recorded regions: maven outside its documented shape, alpm with and without pkgrel, conan items of mixed kinds).
+# Left out of the pool must not mean left out of the property: every such pair is put to the property's own clauses
+# directly on the real objects, with no model in between.
+
+COMPLEMENTS = [("<=", ">"), ("<", ">="), ("=", "!=")]
+
+
+def unrankable_pairs(bench, cap=12):
+    from harness import layera as A
+    out = []
+    for ta, a, tb, b in bench.pool.unrankable:
+        if not A.c01_in_domain(bench.name, [ta, tb]):
+            continue
+        try:
+            if bench.name == "maven":
+                if any(d.strip() != "in" for d in common.run_model(["vdomain maven %s" % common.hx(t) for t in (ta, tb)])):
+                    continue
+            if bench.name == "conan":
+                if common.run_model(["vcompat conan %s %s" % (common.hx(ta), common.hx(tb))])[0].strip() != "in":
+                    continue
+        except Exception:  # noqa: BLE001
+            continue
+        out.append((ta, a, tb, b))
+        if len(out) >= cap:
+            break
+    return out
+
+
+def _mem(r, v):
+    try:
+        return bool(v in r)
+    except Exception as e:  # noqa: BLE001
+        return "raise:" + exc_name(e)
+
+
+def direct_clauses(pid, bench, ta, a, tb, b):
+    """clauses of property `pid` on two real versions, through the real API only; yields (clause, detail) for each
+    clause that fails"""
+    mk = lambda c, v: VersionConstraint(comparator=c, version=v)   # noqa: E731
+    R = bench.rclass
+    for x, tx, y, ty in ((a, ta, b, tb), (b, tb, a, ta)):
+        for c, d in COMPLEMENTS:
+            rc, rd = R(constraints=[mk(c, y)]), R(constraints=[mk(d, y)])
+            if pid == "C04":
+                m1, m2 = _mem(rc, x), _mem(rd, x)
+                if m1 == m2 or not isinstance(m1, bool) or not isinstance(m2, bool):
+                    yield ("%s and %s split the versions in two: %s is in %s of them"
+                           % (c + ty, d + ty, tx, "both" if m1 is True and m2 is True else "neither" if m1 is False and m2 is False else "?"),
+                           {"version": tx, "range_1": str(rc), "in_1": m1, "range_2": str(rd), "in_2": m2})
+            elif pid == "C09":
+                try:
+                    ri = rc.invert()
+                except Exception as e:  # noqa: BLE001
+                    yield ("invert raises", {"range": str(rc), "error": exc_name(e)})
+                    continue
+                m1, m2 = _mem(rc, x), _mem(ri, x)
+                if m1 == m2 or not isinstance(m1, bool) or not isinstance(m2, bool):
+                    yield ("the inverse is not the complement", {"version": tx, "range": str(rc), "in_range": m1,
+                                                                 "inverse": str(ri), "in_inverse": m2})
+            elif pid == "C17":
+                try:
+                    r2 = VR.VersionRange.from_string(str(rc)) if S.rclass(bench.name) else rc
+                    r3 = rc.invert().invert()
+                except Exception as e:  # noqa: BLE001
+                    yield ("a presentation-level operation raises", {"range": str(rc), "error": exc_name(e)})
+                    continue
+                ms = [_mem(rc, x), _mem(r2, x), _mem(r3, x)]
+                if len(set(map(str, ms))) != 1:
+                    yield ("membership changes under print+parse / double inversion",
+                           {"version": tx, "range": str(rc), "membership": ms})
+        if pid == "C10":
+            for c in (">=", "<=", "!="):
+                r = R(constraints=[mk(c, y)])
+                try:
+                    n = r.normalize([tx, ty])
+                except Exception as e:  # noqa: BLE001
+                    yield ("normalize raises", {"range": str(r), "known": [tx, ty], "error": exc_name(e)})
+                    continue
+                for k, tk in ((x, tx), (y, ty)):
+                    if _mem(r, k) != _mem(n, k):
+                        yield ("a known version is in the normalised range but not in the original, or the reverse",
+                               {"range": str(r), "known": [tx, ty], "normalized": str(n), "version": tk,
+                                "in_original": _mem(r, k), "in_normalized": _mem(n, k)})
+            try:
+                fv = R.from_versions([tx, ty]) if S.rclass(bench.name) else None
+            except Exception:  # noqa: BLE001
+                fv = None
+            if fv is not None and fv is not NotImplementedError:
+                for k, tk in ((x, tx), (y, ty)):
+                    if _mem(fv, k) is not True:
+                        yield ("a range built from a list of versions does not contain a listed one",
+                               {"versions": [tx, ty], "range": str(fv), "version": tk})
+        if pid == "C08":
+            for c, d in ((">=", "<="), (">", "<"), ("<=", ">="), ("=", ">"), ("!=", ">=")):
+                try:
+                    cons = sorted([mk(c, x), mk(d, y)])
+                    simp = VersionConstraint.simplify(list(cons))
+                except Exception as e:  # noqa: BLE001
+                    continue
+                r1, r2 = R(constraints=cons), R(constraints=simp)
+                for k, tk in ((x, tx), (y, ty)):
+                    m1, m2 = _mem(r1, k), _mem(r2, k)
+                    if isinstance(m1, bool) and m1 != m2:
+                        yield ("simplification changes the membership of a version",
+                               {"constraints": [str(q) for q in cons], "simplified": [str(q) for q in simp], "version": tk,
+                                "before": m1, "after": m2})
+        if pid == "C07":
+            for c, d in ((">=", "<="), ("=", "="), ("!=", ">")):
+                cons = [mk(c, x), mk(d, y)]
+                try:
+                    VersionConstraint.validate(list(cons))
+                except ValueError:
+                    continue
+                except Exception as e:  # noqa: BLE001
+                    yield ("validation fails with an error that is not a ValueError", {"constraints": [str(q) for q in cons], "error": exc_name(e)})
+                    continue
+                try:
+                    same = bool(x == y)
+                except Exception:  # noqa: BLE001
+                    same = False
+                if same:
+                    yield ("validation accepts a list that names one version twice", {"constraints": [str(q) for q in cons]})
+                r = R(constraints=cons)
+                for k, tk in ((x, tx), (y, ty)):
+                    m = _mem(r, k)
+                    if not isinstance(m, bool):
+                        yield ("an accepted list cannot be tested for membership", {"constraints": [str(q) for q in cons], "version": tk, "error": m})
+
+
+def probe_unrankable(ctx, pid, bench):
+    """run the direct clauses of `pid` on the versions the pool could not rank; report each failure as a violation"""
+    stream = "unrankable:" + bench.name
+    for ta, a, tb, b in unrankable_pairs(bench):
+        ctx.count(stream, key=(ta, tb), nontrivial=True)
+        try:
+            fails = list(direct_clauses(pid, bench, ta, a, tb, b))
+        except Exception as e:  # noqa: BLE001
+            fails = [("the clauses could not be evaluated", {"error": exc_name(e)})]
+        for clause, detail in fails[:2]:
+            rep = {"scheme": bench.name, "a": ta, "b": tb, "clause": clause}
+            rep.update(detail)
+            ctx.disagree(stream, "%s / %s" % (ta, tb), clause, "-", True, rep, spec="the clause holds")
